@@ -412,6 +412,36 @@ def gen_listing(rng):
     return ('\r\n'.join(lines) + '\r\n').encode('latin-1')
 
 
+LISTING_TEMPLATES = [
+    # (format, defaults) - every {field} is replaced in turn by every boundary value while the others keep valid defaults
+    ('{mo}-{d}-{y}  {h}:{mi}{ap}  {sz}  name.txt', {'mo': '12', 'd': '25', 'y': '20', 'h': '10', 'mi': '30', 'ap': 'AM', 'sz': '1234'}),
+    ('{mo}-{d}-{y}  {h}:{mi}{ap}  <DIR>  docs', {'mo': '01', 'd': '01', 'y': '1999', 'h': '01', 'mi': '01', 'ap': 'PM'}),
+    ('{y}-{mo}-{d}  {h}:{mi}  {sz}  name.txt', {'mo': '12', 'd': '25', 'y': '2020', 'h': '10', 'mi': '30', 'sz': '5'}),
+    ('-rw-r--r-- {n} user group {sz} {mon} {d} {h}:{mi} file.txt', {'n': '1', 'sz': '1024', 'mon': 'Jan', 'd': '1', 'h': '12', 'mi': '00'}),
+    ('drwxr-xr-x {n} user group {sz} {mon} {d} {y} dir', {'n': '2', 'sz': '4096', 'mon': 'Feb', 'd': '29', 'y': '2020'}),
+    ('-rw-r--r-- {n} user group {sz} {y}-{mo}-{d} {h}:{mi} file.txt', {'n': '1', 'sz': '5', 'y': '2015', 'mo': '06', 'd': '15', 'h': '08', 'mi': '05'}),
+    ('type=file;size={sz};modify={y}{mo}{d}{h}{mi}{s}; a.txt', {'sz': '10', 'y': '2020', 'mo': '01', 'd': '01', 'h': '12', 'mi': '00', 's': '00'}),
+]
+
+
+def listing_battery():
+    '''Deterministic list of one-line listings: each field of each line grammar at each boundary value.'''
+    out = []
+    for fmt, defaults in LISTING_TEMPLATES:
+        for field in defaults:
+            values = BOUNDARY_NUMS if field not in ('ap', 'mon') else (MONTHS if field == 'mon' else ['AM', 'PM', '', 'am', 'XM', 'A'])
+            for v in values:
+                out.append(fmt.format(**dict(defaults, **{field: v})))
+    return out
+
+
+def ftp_battery_case(rng, index):
+    lines = listing_battery()
+    chunk = lines[(index * 6) % len(lines):(index * 6) % len(lines) + 6]
+    return {'entry': 'ftp', 'target': 'listing', 'value': ('\r\n'.join(chunk) + '\r\n').encode('latin-1'), 'listing': True,
+            'seg_seed': rng.randrange(1 << 30), 'battery': True}
+
+
 def ftp_case(rng):
     target = rng.choice(['welcome', 'user', 'pass', 'size', 'type', 'pasv', 'begin', 'final', 'listing', 'listing', 'listing'])
     listing = rng.random() < 0.5 or target == 'listing'
@@ -792,7 +822,12 @@ def worker(job):
     rng = random.Random(job['seed'])
     for entry, n in job['plan'].items():
         for i in range(n):
-            case = GENERATORS[entry](rng)
+            if entry == 'ftp' and i < job.get('battery_per_job', 0):
+                # directed part: this job's slice of the listing battery
+                case = ftp_battery_case(rng, job.get('battery_offset', 0) + i)
+                part.count('ftp_listing_battery_cases')
+            else:
+                case = GENERATORS[entry](rng)
             part.evaluations += 1
             import time
             t0 = time.time()
@@ -826,7 +861,10 @@ def main():
         nj = check.jobs * (4 if check.thorough else 1)
         plan = {'inject': int(1600 * mult) // nj, 'http': int(4000 * mult) // nj, 'web': int(1600 * mult) // nj, 'ftp': int(2400 * mult) // nj,
                 'robots': int(800 * mult) // nj, 'scrape': int(4000 * mult) // nj, 'crawl': max(1, int(64 * mult) // nj)}
-        jobs = [{'seed': check.seed * 1000003 + i, 'plan': plan} for i in range(nj)]
+        n_battery = (len(listing_battery()) + 5) // 6
+        per_job = min(plan['ftp'], (n_battery + nj - 1) // nj)
+        jobs = [{'seed': check.seed * 1000003 + i, 'plan': plan, 'battery_per_job': per_job, 'battery_offset': i * per_job}
+                for i in range(nj)]
         res = par.run_jobs(target, jobs, check.jobs, timeout=7200 if check.thorough else 1200)
     # the oracle's list of handled kinds must still be what the processors use
     try:
